@@ -398,6 +398,19 @@ def cases(rng, which, count):
                 else:
                     sq = [("q%d" % i, "".join(rng.choice("ACGTN") for _ in range(rng.randint(1, 40)))) for i in range(rng.randint(1, 7))]
                     yield Case("cli_libf", [esc(fasta(sq)), "_", "divide", "--unaligned"] + fl, True, "cli-divide-unaligned")
+            elif w == "nalign-phylip":
+                # `stats nalign -p`: the number of alignments of a Phylip input (1-5 alignments of their own dimensions and
+                # row names, blank lines between them, a last one that ends too early)
+                from driver import multigen
+                als = []
+                for _k in range(rng.randint(1, 5)):
+                    names = ["n%d" % i for i in range(rng.randint(1, 6))]
+                    als += multigen.alignments(rng, k=1, names=names, alphabet=rng.choice(["ACGT", "ACGTacgtNRY", "ARNDCQEGHILKMFPSTWYV"]), lmin=1, lmax=70)
+                sep = rng.choice(["", "", "\n", "\n\n"])
+                txt = sep.join(multigen.phylip(a) for a in als)
+                if rng.random() < 0.12:
+                    txt += rng.choice([" 2 3\nx  ACG\n", " 2 3\nx  ACG\ny  AC\n", " 1\n"])
+                yield Case("cli_lib", [esc(txt), "stats", "nalign", rng.choice(["-p", "-p", "--phylip"])], True, "cli-stats-nalign-phylip")
             elif w == "identical":
                 # `identical -c file`: the same rows in another order, a changed residue / case / name, a row more or less
                 comp = list(rows)
@@ -540,6 +553,13 @@ def cases(rng, which, count):
                 nn = str(rng.choice([1, 2, 3, 4, 5, 6, 10]))
                 yield Case("cli_lib", [sl, "trim", "name", "-n", nn], True, "cli-trim-name")
                 yield Case("cli_lib", [sl, "trim", "name", "-a"], True, "cli-trim-name-auto")
+                # --unaligned: plain sequences of their own lengths, read into a sequence bag
+                ur = [(nm, sq[:rng.randint(1, len(sq))]) for nm, sq in long_rows]
+                su = esc(fasta(ur))
+                ufl = rng.choice([["-n", nn], ["-a"], ["-a", "-n", nn], []])
+                ufl = rng.choice([["--unaligned"] + ufl, ufl + ["--unaligned"]])
+                yield Case("cli_lib", [su, "trim", "name"] + ufl, True, "cli-trim-name-unaligned")
+                yield Case("cli_libf", [su, "_", "trim", "name", "-m", "map.txt"] + ufl, True, "cli-trim-name-unaligned-map")
                 yield Case("cli_libf", [sl, "_", "trim", "name", "-m", "map.txt", "-n", nn], True, "cli-trim-name-map")
                 yield Case("cli_libf", [sl, "_", "trim", "name", "-m", "map.txt", "-a"], True, "cli-trim-name-auto-map")
             elif w == "subset":
